@@ -78,3 +78,31 @@ package checker
 //@   loop#1 invariant (ee.arr == 0 || (fresh(ee.arr) && live(ee.arr)))
 //@   loop#1 invariant -1 <= rangeindex && rangeindex < len(tt) && rcOK(c) && len(c.visited) == old(len(c.visited)) && (forall k string :: (k in c.visited) == old(k in c.visited))
 //@   loop#1 invariant len(c.path) == old(len(c.path)) && (forall i :: 0 <= i && i < len(c.path) ==> c.path[i] == old(c.path[i])) && (c.path.arr == old(c.path.arr) || fresh(c.path))
+
+// ---- key shortcuts (C02): the resolution of `@a | @b` chains ends ----------------------------------------------
+// A user type may list itself in its `or`, directly or through other types. resolveRootType carries the set of names on
+// the current resolution chain; termination measure: (registered types) - (names on the chain). Every name on the chain
+// is a registered one (it was looked up before it was put there), so the measure is never negative (finite-set axiom
+// keys_subset_len, the only assumption), and a recursive call happens only after a name that was not on the chain has
+// been added. On the tree before this function existed the same obligation on actualRootType had no measure to offer:
+// `{ @a : 1 }` with `@a` registered as `@a | @b` overflowed the stack.
+
+//@ func resolveRootType
+//@   property C02
+//@   requires root != nil && resolving != nil
+//@   requires forall k string :: k in resolving ==> k in root.types
+//@   may_panic
+//@   modifies mapof(resolving)
+//@   decreases len(root.types) - len(resolving)
+//@   ensures forall k string :: (k in resolving) == old(k in resolving)
+//@   ensures len(resolving) == old(len(resolving))
+//@   at call:resolveRootType use keys_subset_len(resolving, root.types)
+//@   loop#1 invariant rangeindex >= -1
+//@   loop#1 invariant forall k string :: (k in resolving) == old(k in resolving)
+//@   loop#1 invariant len(resolving) == old(len(resolving))
+//@   loop#1 decreases len(n.types) - rangeindex
+
+//@ func actualRootType
+//@   property C02
+//@   requires root != nil
+//@   may_panic
